@@ -61,10 +61,14 @@ func VerifC08_LZ4_n300_maxratio()  { verifLossless(300, 1) }
 func VerifC08_LZ4_n1000_maxratio() { verifLossless(1000, 1) }
 func VerifC08_LZ4_n5000_maxratio() { verifLossless(5000, 1) }
 func VerifC08_LZ4_n300_minratio()  { verifLossless(300, 2) }
-func VerifC08_LZ4_n131071_maxratio() {
+func VerifC08_LZ4_n8192_maxratio()   { verifLossless(8192, 1) }
+func VerifC08_LZ4_n16384_maxratio()  { verifLossless(16384, 1) }
+func VerifC08_LZ4_n65536_maxratio()  { verifLossless(65536, 1) }
+func VerifC08_LZ4_n131071_maxratio() { verifLossless(131071, 1) }
+func VerifC08_LZ4_n1048576_maxratio() {
 	if !verifThorough {
 		nd.Assert(true, "thorough tier only")
 		return
 	}
-	verifLossless(131071, 1)
+	verifLossless(1<<20, 1)
 }
